@@ -291,6 +291,12 @@ class AbsSet:
     def py_truth(self, it):
         return sym.fresh_bool("nonempty_" + self.name)
 
+    def py_binop(self, it, op, other):
+        import ast as _ast
+        if isinstance(op, _ast.BitOr):
+            return it.call(self.py_getattr(it, "union"), [other], {})     # s | t == s.union(t)
+        raise Unsupported(f"operator {type(op).__name__} on an abstract set")
+
     def py_listcomp(self, it, node, gen, env):
         """[elt for target in <this set>]: the element expression evaluated on a generic member."""
         from .interp import Env
